@@ -348,7 +348,19 @@ fn c17_targeted(rng: &mut Rng, c: u32, l: u32) -> Vec<Op> {
     let fill = gen::setup(rng, c, l, &gen::Profile::default());
     ops.extend(fill);
     ops.push(Op::ClearDirty);
-    match rng.below(8) {
+    match rng.below(9) {
+        8 => {
+            // a mode that is already set is set again: whatever changes must still be reported
+            let m = *rng.pick(&[5u32, 6, 7, 25, 3]);
+            ops.push(Op::Api(SetMode(vec![m], true)));
+            ops.push(Op::Feed(format!("\x1b[27m\x1b[{};1Hre\x1b[7mv", rng.range(1, l))));
+            ops.push(Op::ClearDirty);
+            ops.push(Op::Api(if rng.bool() { SetMode(vec![m], true) } else { SetMode(vec![m << 5], false) }));
+            ops.push(Op::ClearDirty);
+            ops.push(Op::Api(ResetMode(vec![m], true)));
+            ops.push(Op::ClearDirty);
+            ops.push(Op::Api(ResetMode(vec![m], true)));
+        }
         0 => {
             // combining mark at column 0 changes the previous row
             ops.push(Op::Api(CursorPosition(Some(rng.range(1, l)), Some(1))));
